@@ -180,10 +180,11 @@ pub fn gen(tier: &str, seed: u64, outdir: &str) {
 fn same(x: f64, y: f64) -> bool { x.to_bits() == y.to_bits() || (x.is_nan() && y.is_nan()) }
 
 fn judge(out: &mut Vec<Finding>, op: usize, kind: usize, form: usize, s1: (usize, usize), a: &[f64], s2: (usize, usize), b: &[f64]) {
+    let input = format!("op={} kind={} form={} left_shape={}x{} left={} right_shape={}x{} right={}", OPS[op], KINDS[kind], form, s1.0, s1.1, json_floats(a), s2.0, s2.1, json_floats(b));
+    crumb(&input);
     let got = run(op, kind, form, s1, a, s2, b);
     let want = numpy(op, s1, a, s2, b);
     let lf = leaf(s1, s2);
-    let input = format!("op={} kind={} form={} left_shape={}x{} left={} right_shape={}x{} right={}", OPS[op], KINDS[kind], form, s1.0, s1.1, json_floats(a), s2.0, s2.1, json_floats(b));
     let key = |what: &str| format!("{}:{}:{}:{}", what, KINDS[kind], OPS[op], lf);
     match (&want, &got) {
         (None, Ok(v)) => out.push(Finding { class: key("incompatible-accepted"), what: format!("shapes {:?} and {:?} are incompatible (a dimension differs and neither side is 1) but a {}x{} value was returned; must panic", s1, s2, v[0], v[1]), input }),
